@@ -43,7 +43,7 @@ func guard(r *harness.Reporter, prop, sig string, witness func() interface{}, f 
 func init() {
 	harness.Register(&harness.Property{
 		ID: "C20", Level: "exploration", Exhaustive: true,
-		Rule:             "exhaustive: all 65536 byte pairs and all inputs of length 0,1,3,4 over a 6-value alphabet through code metadata and both ESDT flag types (decode vs documented bits, decode∘encode∘decode, no stray bits); structured addresses of length 0..40 through every classifier vs reference implementations; generated output-account pairs/triples through MergeOutputAccounts vs a reference merge + mutation check of the merged-in account after later merges; uint64 boundary grid through SafeSubUint64. Non-trivial = case with a non-empty decoded value / a classifier answering true / a merge that changes the result; distinct = distinct inputs",
+		Rule:             "exhaustive: all 65536 byte pairs and all inputs of length 0,1,3,4 over a 6-value alphabet through code metadata and both ESDT flag types (decode vs documented bits, decode∘encode∘decode, no stray bits); structured addresses of length 0..40 (and sparse lengths up to 70000) through every classifier vs reference implementations; generated output-account pairs/triples through MergeOutputAccounts vs a reference merge + mutation check of the merged-in account after later merges; uint64 boundary grid through SafeSubUint64. Non-trivial = case with a non-empty decoded value / a classifier answering true / a merge that changes the result; distinct = distinct inputs Address classifiers also on lengths 41..70000.",
 		Assumptions:      []string{"reference implementations written from the documented bit layout and address layout (DESIGN.md §5 C20)"},
 		Batches:          tierN(4, 8),
 		DeathIsViolation: true,
@@ -209,6 +209,21 @@ func c20Addresses(c *harness.Ctx) {
 			}
 			addrs = append(addrs, a)
 		}
+	}
+	// "any length": far beyond 40 as well (buffers, pages, more than 64 KiB)
+	for _, n := range []int{41, 48, 63, 64, 65, 66, 100, 127, 128, 129, 255, 256, 257, 1000, 4096, 70000} {
+		z := make([]byte, n)
+		f := bytes.Repeat([]byte{0xff}, n)
+		sc := bytes.Repeat([]byte{0x33}, n)
+		for i := 0; i < 8; i++ {
+			sc[i] = 0
+		}
+		meta := append([]byte{}, sc...)
+		for i := 10; i < 25; i++ {
+			meta[i] = 0
+		}
+		meta[n-1] = 0xff
+		addrs = append(addrs, z, f, sc, meta)
 	}
 	for i := 0; i < 32; i++ {
 		for _, d := range []byte{1, 0xff} {
@@ -530,7 +545,7 @@ func c20Merges(c *harness.Ctx) {
 func init() {
 	harness.Register(&harness.Property{
 		ID: "C14", Level: "exploration", Exhaustive: true,
-		Rule:             "exhaustive sub-domain: the amount codec over ALL buffers of length 0..2 (quick) / 0..3 (thorough, 16.8 M) and all values |v| < 2^16 of both signs; decode of ALL byte strings up to length 2 (quick) / 3 (thorough) through the three messages; plus generated structured values (zero / huge / negative amounts, absent vs empty fields, 0..8 roles and URIs incl. empty ones, nested empty metadata) compared byte-for-byte with the reference encoder, and mutated valid encodings (bit flips, truncations, length inflation) through the decoders. Non-trivial = value with at least one non-default field / decode that succeeds; distinct = distinct encodings",
+		Rule:             "exhaustive sub-domain: the amount codec over ALL buffers of length 0..2 (quick) / 0..3 (thorough, 16.8 M) and all values |v| < 2^16 of both signs; decode of ALL byte strings up to length 2 (quick) / 3 (thorough) through the three messages; plus generated structured values (zero / huge / negative amounts, absent vs empty fields, 0..8 roles and URIs incl. empty ones, nested empty metadata) compared byte-for-byte with the reference encoder, and mutated valid encodings (bit flips, truncations, length inflation) through the decoders. Non-trivial = value with at least one non-default field / decode that succeeds; distinct = distinct encodings + Size() / in-place update of the amount / Marshal() / MarshalToSizedBuffer() in every order (no encoder state between calls).",
 		Assumptions:      []string{"reference codec written from esdt.proto and the documented amount format, not from esdt.pb.go", "MarshalTo into a caller-supplied dirty buffer is outside the claim (production path allocates a zeroed buffer)"},
 		Batches:          tierN(8, 16),
 		DeathIsViolation: true,
@@ -851,6 +866,39 @@ func runC14(c *harness.Ctx) {
 					}
 				}
 			}
+			// encoders keep no state between calls: the amount is updated IN PLACE (as the built-in
+			// functions do with balances) after a Size() / before the next Marshal(), in every order
+			if e.Value != nil {
+				for _, d := range []int64{1, -3, 1 << 40} {
+					_ = e.Size()
+					e.Value.Add(e.Value, big.NewInt(d))
+					t2 := *t
+					t2.Value = new(big.Int).Set(e.Value)
+					w2 := refcodec.EncodeToken(&t2)
+					g2, err := e.Marshal()
+					if err != nil || !bytes.Equal(g2, w2) {
+						R.Violate("C14:stale-encoder-state", fmt.Sprintf("after Size() and an in-place update of the amount to %v, Marshal = %x, documented %x", e.Value, g2, w2), fmt.Sprintf("%+v", t2))
+						break
+					}
+					if e.Size() != len(w2) {
+						R.Violate("C14:stale-encoder-state", fmt.Sprintf("after an in-place update of the amount to %v, Size() = %d, encoded length %d", e.Value, e.Size(), len(w2)), fmt.Sprintf("%+v", t2))
+						break
+					}
+					e.Value.Lsh(e.Value, 9)
+					t2.Value = new(big.Int).Set(e.Value)
+					w3 := refcodec.EncodeToken(&t2)
+					if sz := e.Size(); sz != len(w3) {
+						R.Violate("C14:stale-encoder-state", fmt.Sprintf("after Marshal() and an in-place update of the amount to %v, Size() = %d, encoded length %d", e.Value, sz, len(w3)), fmt.Sprintf("%+v", t2))
+						break
+					}
+					buf := make([]byte, len(w3))
+					if n, err := e.MarshalToSizedBuffer(buf); err != nil || n != len(w3) || !bytes.Equal(buf, w3) {
+						R.Violate("C14:stale-encoder-state", fmt.Sprintf("after Size() twice and an in-place update, MarshalToSizedBuffer = %x, documented %x", buf, w3), fmt.Sprintf("%+v", t2))
+						break
+					}
+				}
+				R.Cover("C14/in-place-update-between-size-and-marshal")
+			}
 			R.Distinct(harness.Hash64("tok", string(got)))
 			if i == 0 {
 				sample(c, map[string]interface{}{"value": fmt.Sprintf("%+v", *t), "encoding": hex.EncodeToString(got)})
@@ -992,7 +1040,7 @@ func decodeAnything(R *harness.Reporter, buf []byte) {
 func init() {
 	harness.Register(&harness.Property{
 		ID: "C12", Level: "exploration", Exhaustive: true,
-		Rule:             "exhaustive sub-domain: ALL strings over {x,@,a,A,1,space} up to length 7 (quick) / 8 (thorough, 2.0 M) through the four parsers under a panic monitor, with parse∘build = id and build∘parse = canonical checks; plus generated argument lists (empty arguments, odd-length / upper-case hex) through the tx-data builder and the built-in functions' own encoder; the ESDT-transfer parser on count residues of 3n+c mod 2^64, counts wider than 64 bits, payloads decoding to no value, sender == receiver and != ; deploy data and storage-update lists through encode -> parse. Non-trivial = the parser accepts; distinct = distinct accepted inputs",
+		Rule:             "exhaustive sub-domain: ALL strings over {x,@,a,A,1,space} up to length 7 (quick) / 8 (thorough, 2.0 M) through the four parsers under a panic monitor, with parse∘build = id and build∘parse = canonical checks; plus generated argument lists (empty arguments, odd-length / upper-case hex) through the tx-data builder and the built-in functions' own encoder; the ESDT-transfer parser on count residues of 3n+c mod 2^64, counts wider than 64 bits, payloads decoding to no value, sender == receiver and != ; deploy data and storage-update lists through encode -> parse. Non-trivial = the parser accepts; distinct = distinct accepted inputs + the pipeline tx data -> library parser -> built-in function (given exactly the parser's slices) -> its encoder -> library parser with empty arguments at every position and 256+ entry multi-transfers.",
 		Assumptions:      []string{"function names are non-empty and '@'-free, storage-update lists start with a non-empty offset (the wire format cannot represent others)"},
 		Batches:          tierN(8, 16),
 		DeathIsViolation: true,
@@ -1377,6 +1425,76 @@ func runC12(c *harness.Ctx) {
 	}
 	R.Eval(nwf)
 
+	// ---- the whole pipeline: tx data -> library parser -> built-in function -> its own message
+	// encoder -> library parser. The arguments the function receives are exactly the slices the
+	// parser returned (empty arguments in whatever representation it chose) ----
+	if c.Batch == 1%c.Batches {
+		extrasList := [][][]byte{
+			{[]byte("fn")}, {[]byte("fn"), {}}, {[]byte("fn"), {}, {}}, {[]byte("fn"), {}, []byte("x"), {}}, {[]byte("fn"), []byte("x"), {}, []byte("y")},
+			{[]byte("fn"), {0}, {}, {0, 0}}, {[]byte("g"), {}}, {[]byte("fn"), {}, {}, {}, {}, []byte("z")},
+		}
+		for xi, extras := range extrasList {
+			for form := 0; form < 5; form++ {
+				s := NewScn(c.Rand("c12pipe").Fork(uint64(xi*10+form)), harness.NewReporter("x"), ScnOpts{Shards: 2})
+				s.Fund(s.KSame)
+				var call node.Call
+				head := 0
+				switch form {
+				case 0: // contract sender, cross-shard: the sender leg re-encodes the whole call
+					call, head = gen.TransferCall(s.KSame, s.Other, s.F1, big.NewInt(3), gen.BigGas, extras...), 2
+					call.CallType = vmcommon.AsynchronousCall
+				case 1:
+					call, head = gen.NFTTransferCall(s.A, s.KOther, s.SFT, 1, big.NewInt(1), gen.BigGas, extras...), 4
+				case 2:
+					call, head = gen.MultiCall(s.A, s.KOther, []gen.Item{{ID: s.F1, Nonce: 0, Qty: big.NewInt(1)}, {ID: s.SFT, Nonce: 1, Qty: big.NewInt(1)}}, gen.BigGas, extras...), 7
+				case 4: // more entries than a byte counts
+					var items []gen.Item
+					for k := 0; k < 256+xi*7; k++ {
+						items = append(items, gen.Item{ID: s.F1, Nonce: 0, Qty: big.NewInt(1)})
+					}
+					call, head = gen.MultiCall(s.A, s.KOther, items, gen.BigGas, extras...), 1+3*len(items)
+				default: // same-shard contract destination: the attached call is emitted for the VM
+					call, head = gen.TransferCall(s.A, s.KSame, s.F1, big.NewInt(3), gen.BigGas, extras...), -1
+				}
+				data := node.BuildData(call.Func, call.Args)
+				guard(R, "C12", "pipeline", func() interface{} { return data }, func() {
+					f, pa, err := cp.ParseData(data)
+					if err != nil || f != call.Func || len(pa) != len(call.Args) {
+						R.Violate("C12:parse-build-not-identity", fmt.Sprintf("ParseData(%q) = (%q, %d args, %v)", data, f, len(pa), err), data)
+						return
+					}
+					call.Args = pa // the parser's own slices
+					l := s.U.N.Exec(call)
+					if l == nil || !l.OK {
+						R.Note("pipeline call not accepted: " + data)
+						return
+					}
+					for _, e := range l.Emitted {
+						if e.Data == "" {
+							continue
+						}
+						ef, ea, err := cp.ParseData(e.Data)
+						if err != nil {
+							R.Violate("C12:emitted-unparsable", fmt.Sprintf("the message %q emitted for %q does not parse: %v", e.Data, data, err), data)
+							continue
+						}
+						if head < 0 {
+							// the attached call itself: function = extras[0], arguments = extras[1:]
+							if ef != string(extras[0]) || !argsEqual(ea, extras[1:]) {
+								R.Violate("C12:pipeline-arguments-changed", fmt.Sprintf("the attached call of %q is emitted as %q: (%q, %d arguments), carried (%q, %d arguments)", data, e.Data, ef, len(ea), extras[0], len(extras)-1), data)
+							}
+						} else if call.Func == FMulti && len(ea) > 0 && 1+3*u64(ea[0]) != uint64(head) {
+							R.Violate("C12:pipeline-arguments-changed", fmt.Sprintf("a multi-transfer of %d entries is continued by a message whose count argument is %x", (head-1)/3, ea[0]), data)
+						} else if ef != call.Func || len(ea) != head+len(extras) || !argsEqual(ea[head:], extras) {
+							R.Violate("C12:pipeline-arguments-changed", fmt.Sprintf("%q is continued by the message %q: %d arguments, expected %d with the attached call (%d items) unchanged at the end", data, e.Data, len(ea), head+len(extras), len(extras)), data)
+						}
+						R.Cover("C12/pipeline-messages-checked")
+					}
+				})
+			}
+		}
+	}
+
 	// ---- histories of one builder instance against a reference builder ----
 	for h := 0; h < c.Scale(3000, 30000)/c.Batches; h++ {
 		b := txDataBuilder.NewBuilder()
@@ -1480,7 +1598,7 @@ func upperHex(s, fn string) string {
 func init() {
 	harness.Register(&harness.Property{
 		ID: "C18", Level: "exploration", Exhaustive: true,
-		Rule:        "exhaustive sub-domain: activation epochs {0,1,2,3,2^31,2^32-1} x ALL epoch sequences of length <= 4 (quick) / 5 (thorough) over {0..4} ∪ {a-1,a,a+1} (regressions and repeats included), IsActive of all 23 functions compared with the reference after EVERY notification, on every shard of factory configurations (DNS sets, EnableUserNameChange, 1-3 shards, three gas maps); registry compared with the literal list of 23 protocol names; binding probes: for every name the object bound to it must show that name's distinctive effect (monitors C02-C08 keyed by name + direct effect probes). Non-trivial = a notification that changes the reference answer or a probe that commits; distinct = (activation, sequence) and probe names",
+		Rule:        "exhaustive sub-domain: activation epochs {0,1,2,3,2^31,2^32-1} x ALL epoch sequences of length <= 4 (quick) / 5 (thorough) over {0..4} ∪ {a-1,a,a+1} (regressions and repeats included), IsActive of all 23 functions compared with the reference after EVERY notification, on every shard of factory configurations (DNS sets, EnableUserNameChange, 1-3 shards, three gas maps); registry compared with the literal list of 23 protocol names; binding probes: for every name the object bound to it must show that name's distinctive effect (monitors C02-C08 keyed by name + direct effect probes). Non-trivial = a notification that changes the reference answer or a probe that commits; distinct = (activation, sequence) and probe names Notifications carry timestamps (epoch start time / zero / strictly decreasing / pseudo-random); probes include the refusals that distinguish neighbouring names (wipe of a holding that is not frozen, freeze twice, un-pause of a token that is not paused).",
 		Assumptions: []string{"the literal list of the 23 protocol function names in internal/props/shadow.go"},
 		Batches:     tierN(6, 12),
 		Floors:      map[string]int64{"C18/notifications": 5000, "C18/binding-probes": 23, "C18/registry-checks": 6},
@@ -1516,6 +1634,16 @@ func runC18(c *harness.Ctx) {
 				if err != nil {
 					R.Violate("C18:factory-fails", "factory rejects a valid configuration: "+err.Error(), cfg)
 					return nil
+				}
+				// the timestamp that accompanies a notification carries no meaning for activation:
+				// epoch start times (default), always zero, strictly decreasing, pseudo-random
+				switch (ci + int(a)) % 4 {
+				case 1:
+					w.TimestampOf = func(uint32, int) uint64 { return 0 }
+				case 2:
+					w.TimestampOf = func(_ uint32, n int) uint64 { return 1<<40 - uint64(n) }
+				case 3:
+					w.TimestampOf = func(e uint32, n int) uint64 { return harness.Hash64(fmt.Sprint(e, n)) }
 				}
 				return w
 			}
@@ -1697,6 +1825,19 @@ func c18Probes(c *harness.Ctx) {
 		l := s.U.Wipe(s.A, s.F1)
 		_, exists := liveEntry(s.U.W, s.A, node.KeyPrefix+string(s.F1))
 		return l.OK && !exists, "frozen holding not deleted"
+	})
+	probe(FWipe+"/holder-not-frozen", func(s *Scn) (bool, string) {
+		l := s.U.Wipe(s.A, s.F1)
+		return !l.OK && !frozen(s, s.A, s.F1) && bal(s, s.A, s.F1, 0) == 1000, "a holding that is not frozen was wiped (or frozen) by ESDTWipe"
+	})
+	probe(FFreeze+"/twice", func(s *Scn) (bool, string) {
+		s.U.Freeze(s.A, s.F1)
+		l := s.U.Freeze(s.A, s.F1)
+		return l.OK && frozen(s, s.A, s.F1) && bal(s, s.A, s.F1, 0) == 1000, "freezing twice does not leave the holding frozen and intact"
+	})
+	probe(FUnPause+"/not-paused", func(s *Scn) (bool, string) {
+		l := s.U.UnPause(0, s.F1)
+		return l.OK && !paused(s, 0, s.F1), "un-pausing a token that is not paused leaves it paused"
 	})
 	probe(FPause, func(s *Scn) (bool, string) {
 		l := s.U.Pause(0, s.F1)
